@@ -11,6 +11,8 @@ import Isotp.Proofs.Fc
                       (`status = 0`, N_Bs not expired, state WAIT_FC or TRANSMIT_CF);
   * `TxEv`, `monStep`, `monRun`, `txEvents`, `Coupled`  the block-size monitor of the property
                       text, the events of one `processTx` call, and the coupling invariant;
+  * `Strict`, `SEv`, `strictStep`, `strictRun`, `txEventsS`, `rxEventsS`, `SInv`  the strict
+                      monitor (count / granted / recent), its events and coupling (section 2b);
   * `TxWf`, `TxLive`  transmit-side well-formedness / "no wedged state";
   * `afterFc`, `afterTimeout`  phases 1 and 2 of `_process_tx` (mailbox, N_Bs check).
   The clause "everything emitted is a prefix of the reference segmentation" is handled elsewhere.
@@ -315,6 +317,114 @@ example : txEvents ex3 = [] := by decide
 example : txEvents ex0 = [.startSent] := by decide
 example : txEvents exMid = [.fcRead 3, .cfSent] ∧ exMid.processTx.1.txState = .waitFc := by decide
 
+/-! ### 2b. `block_bound_strict`: the strict monitor (count / granted / recent)
+
+  Ghost state `Strict` = (`count`: CFs handed out since the sender last waited; `granted`: largest
+  block size granted by a ContinueToSend since it last waited, `none` = ∞ for BS = 0; `recent`:
+  largest block size granted since the last data frame).  Events (`SEv`):
+  * `ffSent`  → count := 0, granted := 0, recent := 0;
+  * `ctsRead bs` (a ContinueToSend reaches the mailbox in `processRx`, even if it is overwritten
+    before being consumed) → granted := max granted bs', recent := max recent bs';
+  * `waitPass` (a `processTx` pass begins with `txState = .waitFc`) → count := 0, granted := recent;
+  * `cfSent` → recent := 0, count := count + 1, **violation** if count > granted;
+  * `sfSent` → recent := 0 when the flag `sfResets` is set, nothing otherwise (both readings hold).
+  `txEventsS s` = [`waitPass` if the pass begins in WAIT_FC] ++ [`cfSent` | `ffSent` | `sfSent`
+  according to the data frame handed out, if any]; `rxEventsS s m` = [`ctsRead bs`] when `m`
+  decodes to a ContinueToSend. -/
+
+/-- strict-monitor events of one operation -/
+def stepEventsS (s : State) : Op → List SEv
+  | .tx => txEventsS s
+  | .rx m => rxEventsS s m
+  | _ => []
+
+/-- strict-monitor events of a run -/
+def runEventsS (s : State) : List Op → List SEv
+  | [] => []
+  | o :: ops => stepEventsS s o ++ runEventsS (step s o) ops
+
+/-- **Strict monitor, one transmit pass.** From a state coupled with the monitor (`SInv`: in
+    TRANSMIT_CF `txBlockCnt = count`, `count + 1 ≤ granted`, `granted` covers the block size in
+    force; a ContinueToSend waiting in the mailbox is covered by `recent` and `granted`), a
+    `processTx` call never violates the strict monitor and re-establishes the coupling. -/
+theorem block_bound_strict_step (sfResets : Bool) (s : State) (g : Strict) (h : SInv s g) :
+    ∃ g', strictRun sfResets g (txEventsS s) = some g' ∧ SInv s.processTx.1 g' :=
+  strict_step_tx sfResets s g h
+
+/-- the same for `processRx` (a ContinueToSend reaching the mailbox only enlarges the grants) -/
+theorem block_bound_strict_step_rx (sfResets : Bool) (s : State) (m : CanMsg) (g : Strict)
+    (h : SInv s g) :
+    ∃ g', strictRun sfResets g (rxEventsS s m) = some g' ∧ SInv (s.processRx m).1 g' :=
+  strict_step_rx sfResets s m g h
+
+/-- the coupling holds for a fresh layer, whatever the monitor state -/
+theorem strict_coupled_init (c : Cfg) (a : Addr) (g : Strict) : SInv (State.init c a) g :=
+  SInv_init c a g
+
+/-- **Strict block bound over a whole run**, for arbitrary interleavings of transmit passes,
+    received frames, clock ticks, `send`, rx-timeout checks and `reset`: the model never violates
+    the strict monitor. -/
+theorem block_bound_strict_run (sfResets : Bool) (ops : List Op) (s : State) (g : Strict)
+    (h : SInv s g) :
+    ∃ g', strictRun sfResets g (runEventsS s ops) = some g' ∧ SInv (run s ops) g' := by
+  induction ops generalizing s g with
+  | nil => exact ⟨g, rfl, h⟩
+  | cons o ops ih =>
+    have key : ∀ g1, strictRun sfResets g (stepEventsS s o) = some g1 → SInv (step s o) g1 →
+        ∃ g', strictRun sfResets g (runEventsS s (o :: ops)) = some g' ∧ SInv (run s (o :: ops)) g' := by
+      intro g1 h1 c1
+      obtain ⟨g2, h2, c2⟩ := ih (step s o) g1 c1
+      refine ⟨g2, ?_, c2⟩
+      simp only [runEventsS, strictRun_append, h1]
+      exact h2
+    cases o with
+    | tx =>
+      obtain ⟨g1, h1, c1⟩ := strict_step_tx sfResets s g h
+      exact key g1 h1 c1
+    | rx m =>
+      obtain ⟨g1, h1, c1⟩ := strict_step_rx sfResets s m g h
+      exact key g1 h1 c1
+    | tick dt => exact key g rfl (SInv_advance s dt g h)
+    | send a => exact key g rfl (SInv_send s a g h)
+    | checkRx => exact key g rfl (SInv_checkTimeoutsRx s g h)
+    | reset => exact key g rfl (SInv_reset s g)
+
+/-- **Corollary in plain terms.** Run a fresh layer through any sequence of operations. At the
+    end (hence, the sequence being arbitrary, at every moment) the monitor has not been violated
+    and `count ≤ granted`: the number of Consecutive Frames handed out since the last pass that
+    began in WAIT_FC (or since the First Frame) is at most the largest block size granted by a
+    ContinueToSend in that stretch — unless one of those grants was BS = 0 (`granted = none`). -/
+theorem block_bound_strict_corollary (sfResets : Bool) (ops : List Op) (c : Cfg) (a : Addr) :
+    ∃ g', strictRun sfResets {} (runEventsS (State.init c a) ops) = some g' ∧
+      (g'.granted = none ∨ ∃ m, g'.granted = some m ∧ g'.count ≤ m) := by
+  obtain ⟨g', h1, _⟩ := block_bound_strict_run sfResets ops (State.init c a) {} (SInv_init c a {})
+  refine ⟨g', h1, ?_⟩
+  have hok : g'.ok := strictRun_ok sfResets {} g' _ (by simp [Strict.ok, Budget.ge]) h1
+  unfold Strict.ok at hok
+  cases hg : g'.granted with
+  | none => exact Or.inl rfl
+  | some m => right; rw [hg] at hok; exact ⟨m, rfl, hok⟩
+
+/-- a ContinueToSend (BS = 2, STmin = 0) as it arrives on the bus -/
+def exCtsMsg : CanMsg := { id := 0x456, ext := false, data := [0x30, 2, 0] }
+
+example : rxEventsS ex1 exCtsMsg = [.ctsRead 2] := by decide
+example : txEventsS ex0 = [.ffSent] ∧ txEventsS ex1 = [.waitPass] := by decide
+/-- FF, CTS(2) arrives, two CFs, then the sender waits: the event trace of the model -/
+example : runEventsS ex0 [.tx, .tick 1000000, .rx exCtsMsg, .tx, .tx, .tx] =
+    [.ffSent, .ctsRead 2, .waitPass, .cfSent, .cfSent, .waitPass] := by decide
+example : strictRun true {} [.ffSent, .ctsRead 2, .waitPass, .cfSent, .cfSent, .waitPass] =
+    some { count := 0, granted := some 0, recent := some 0 } := by decide
+/-- a third Consecutive Frame in the stretch would be a violation -/
+example : strictRun true {} [.ffSent, .ctsRead 2, .waitPass, .cfSent, .cfSent, .cfSent] = none := by decide
+/-- a grant received *before* the last data frame does not carry over a wait -/
+example : strictRun true {} [.ffSent, .ctsRead 1, .waitPass, .ctsRead 5, .cfSent, .waitPass, .cfSent] = none := by
+  decide
+/-- mid-block ContinueToSend with a smaller block size (8 granted, 5 sent, then BS = 3): the one
+    extra frame is within `granted = 8`, and the sender then waits -/
+example : strictRun true { count := 5, granted := some 8, recent := some 0 } [.ctsRead 3, .cfSent, .waitPass] =
+    some { count := 0, granted := some 0, recent := some 0 } := by decide
+
 /-! ### 3. `abort_*` -/
 
 theorem stopSending_log (s : State) (r : Req) (ok : Bool) (ha : s.active = some r) :
@@ -478,10 +588,25 @@ theorem waitFc_deadline (s : State) (t0 : Nat) (hw : TxWf s) (hs : s.txState = .
   exact hdue
 
 /-- (ii) TRANSMIT_CF makes progress at the latest by the first pass after the STmin deadline
-    (mailbox empty, limiter letting the frame through): the pass raises, ends the message, or
-    hands out a Consecutive Frame and strictly decreases the number of bytes left to send. -/
+    (mailbox empty, limiter letting the frame through, valid configuration, no exception raised
+    before): the pass does not raise; it ends the message, or hands out a Consecutive Frame and
+    strictly decreases the number of bytes left to send. -/
 theorem transmitCf_deadline (s : State) (r : Req) (t0 : Nat) (hw : TxWf s) (hs : s.txState = .transmitCf)
     (hst : s.timerStmin.start = some t0)
+    (hdue : s.now - t0 > s.timerStmin.timeout ∨ s.timerStmin.timeout = 0)
+    (hp : s.pendingFc = false) (hfc : s.lastFc = none) (ha : s.active = some r)
+    (hd : r.depleted = false) (hl : cfPayloadLen s r ≤ (allowedNow s))
+    (hv : s.cfg.valid = true) (he : s.exc = none) :
+    s.processTx.1.exc = none ∧
+    (s.processTx.1.txState = .idle ∨
+     (∃ msg r', s.processTx.2.1 = some msg ∧ s.processTx.1.active = some r' ∧
+       r'.remaining < r.remaining ∧ r'.id = r.id ∧ r'.size = r.size)) :=
+  processTx_cf_progress_valid s r hw hs hp hfc ha hd ((Timer_timedOut_iff _ _).2 ⟨t0, hst, hdue⟩) hl hv he
+
+/-- (ii′) the same without assuming a valid configuration or a clean exception flag: the pass
+    may then also end with the exception flag set -/
+theorem transmitCf_deadline_any_cfg (s : State) (r : Req) (t0 : Nat) (hw : TxWf s)
+    (hs : s.txState = .transmitCf) (hst : s.timerStmin.start = some t0)
     (hdue : s.now - t0 > s.timerStmin.timeout ∨ s.timerStmin.timeout = 0)
     (hp : s.pendingFc = false) (hfc : s.lastFc = none) (ha : s.active = some r)
     (hd : r.depleted = false) (hl : cfPayloadLen s r ≤ (allowedNow s))
@@ -520,7 +645,7 @@ example : TxWf ex3 :=
   txWf_processTx _ (txWf_processTx _ (txWf_processTx ex0 (by simp [TxWf, ex0, State.init])))
 example : ex3.txState = .waitFc ∧ ex3.timerFc = { start := some 1000000, timeout := 1000000000 } := by decide
 example : exLate.timerFc.start = some 0 ∧ exLate.now - 0 > exLate.cfg.tFc := by decide
-example : ex2.timerStmin = { start := some 1000000, timeout := 0 } ∧ ex2.txPrefixLen + 2 ≤ ex2.cfg.txDl := by
+example : ex2.timerStmin = { start := some 1000000, timeout := 0 } ∧ ex2.cfg.valid = true ∧ ex2.exc = none := by
   decide
 
 end Isotp.C04
@@ -543,6 +668,11 @@ end Isotp.C04
 #print axioms Isotp.C04.coupled_reset
 #print axioms Isotp.C04.monRun_append
 #print axioms Isotp.C04.stopSending_log
+#print axioms Isotp.C04.block_bound_strict_step
+#print axioms Isotp.C04.block_bound_strict_step_rx
+#print axioms Isotp.C04.strict_coupled_init
+#print axioms Isotp.C04.block_bound_strict_run
+#print axioms Isotp.C04.block_bound_strict_corollary
 #print axioms Isotp.C04.blockInv_established
 #print axioms Isotp.C04.blockInv_transmitCf
 #print axioms Isotp.C04.block_end_waits
@@ -569,6 +699,7 @@ end Isotp.C04
 #print axioms Isotp.C04.no_wedged_state
 #print axioms Isotp.C04.waitFc_deadline
 #print axioms Isotp.C04.transmitCf_deadline
+#print axioms Isotp.C04.transmitCf_deadline_any_cfg
 #print axioms Isotp.C04.prefix_fits
 #print axioms Isotp.C04.wait_frames_bounded
 #print axioms Isotp.C04.cts_resets_wait_count
